@@ -19,36 +19,9 @@
 (* The state machine walks the case list; one state per case, so TLC's     *)
 (* state count is the number of cases generated.                           *)
 (***************************************************************************)
-EXTENDS Codec
+EXTENDS MsgGenOps
 
 Cases == ndJsonDeserialize(IOEnv.VERIF_CASES)
-
-\* permutation of 1..n selected by ord
-Perm(n, ord) ==
-  CASE ord = "asc"  -> [j \in 1..n |-> j]
-    [] ord = "desc" -> [j \in 1..n |-> n + 1 - j]
-    [] ord = "rot"  -> [j \in 1..n |-> IF j = n THEN 1 ELSE j + 1]
-    [] ord = "evod" -> [j \in 1..n |-> IF j <= n \div 2 THEN 2 * j ELSE 2 * (j - n \div 2) - 1]
-
-RECURSIVE EncO(_, _, _)
-EncO(t, w, ord) ==
-  CASE t.k \in FixedKinds -> w
-    [] t.k \in {"string", "binary"} -> BE4(Len(w)) \o w
-    [] t.k \in ListKinds ->
-         <<WT(t.e)>> \o BE4(Len(w)) \o Flat(Mat([i \in 1..Len(w) |-> EncO(t.e, w[i], ord)]))
-    [] t.k = "map" ->
-         <<WT(t.kt), WT(t.vt)>> \o BE4(Len(w)) \o
-         Flat(Mat([i \in 1..Len(w) |-> EncO(t.kt, w[i][1], ord) \o EncO(t.vt, w[i][2], ord)]))
-    [] t.k = "struct" ->
-         LET ff == FieldsOf(t.s)
-             pm == Perm(Len(ff), ord)
-             one(j) == IF ff[pm[j]].key \in DOMAIN w.f
-                       THEN <<WT(ff[pm[j]].t)>> \o BE2(ff[pm[j]].id) \o EncO(ff[pm[j]].t, w.f[ff[pm[j]].key], ord)
-                       ELSE <<>>
-             parts == Mat([j \in 1..Len(ff) |-> one(j)]) IN
-         IF ord = "desc" THEN w.unk \o Flat(parts) \o <<TSTOP>>
-         ELSE IF ord = "rot" /\ Len(ff) > 0 THEN parts[1] \o w.unk \o Flat(SubSeq(parts, 2, Len(parts))) \o <<TSTOP>>
-         ELSE Flat(parts) \o w.unk \o <<TSTOP>>
 
 Message(c) == EncO(StructT(c.w), ExpS(c.w, c.val), c.ord) \o c.trail
 
